@@ -359,13 +359,21 @@ pub fn resolve_inputs(spec: &str, seed: u64) -> Vec<Input> {
             "ectl" => out.extend(exec_control_inputs(f[1])),
             "ops" => out.extend(operator_inputs()),
             "manyimp" => out.extend(many_import_inputs()),
+            "offsets" => out.extend(offset_inputs()),
             "exectab" => out.extend(exec_table_inputs(seed, f[1].parse().unwrap())),
             "dupimp" => out.extend(duplicate_import_inputs(seed, f[1].parse().unwrap())),
             "par" => out.extend(parallel_inputs(seed, f[1].parse().unwrap())),
             "proposals" => out.extend(proposal_inputs(seed, f[1].parse().unwrap())),
             "cust" => out.extend(custom_layout_inputs(f[1])),
-            "fixtures" => out.extend(fixture_inputs().into_iter().filter(|i| absmod::validate(&i.bytes).is_ok())),
-            "fixtures-all" => out.extend(fixture_inputs()),
+            // the repository's fixtures plus the harness's small hand-made families
+            "fixtures" => {
+                out.extend(fixture_inputs().into_iter().filter(|i| absmod::validate(&i.bytes).is_ok()));
+                out.extend(offset_inputs());
+            }
+            "fixtures-all" => {
+                out.extend(fixture_inputs());
+                out.extend(offset_inputs());
+            }
             "file" => {
                 let bytes = std::fs::read(f[1]).expect("input file");
                 out.push(Input { id: format!("file-{}", f[1].rsplit('/').next().unwrap()), bytes, source: format!("file:{}", f[1]) });
@@ -742,30 +750,38 @@ pub fn config_case(inp: &Input, dwarf_ok: bool) -> Value {
     let inm = absmod::project(&inp.bytes).unwrap_or_default();
     let in_has_dwarf = inm.sections.iter().any(|s| s.name.starts_with(".debug"));
     let mut runs = vec![];
-    for bits in 0..32u32 {
-        let cfg = Cfg { names: bits & 1 != 0, producers: bits & 2 != 0, dwarf: bits & 4 != 0, xform: bits & 8 != 0, stable: bits & 16 != 0, synth: false, probe: false };
+    // all 2^6 vectors of names / producers / dwarf / xform / stable / synthetic-names with strict validation on, and a
+    // few of them again with strict validation off
+    let vectors: Vec<(u32, bool)> = (0..64u32).map(|b| (b, true)).chain([0u32, 3, 21, 35, 42, 63].into_iter().map(|b| (b, false))).collect();
+    for (bits, strict) in vectors {
+        let cfg = Cfg { names: bits & 1 != 0, producers: bits & 2 != 0, dwarf: bits & 4 != 0, xform: bits & 8 != 0, stable: bits & 16 != 0, synth: bits & 32 != 0, probe: false };
         if cfg.dwarf && !dwarf_ok {
             continue;
         }
         let calls = Arc::new(AtomicU32::new(0));
         let c2 = calls.clone();
         let mut config = cfg.to_config();
+        config.strict_validate(strict);
         config.on_parse(move |_, _| {
             c2.fetch_add(1, Ordering::SeqCst);
             Ok(())
         });
-        let flags = json!({"names": cfg.names, "producers": cfg.producers, "dwarf": cfg.dwarf, "xform": cfg.xform, "stable": cfg.stable});
+        let flags = json!({"names": cfg.names, "producers": cfg.producers, "dwarf": cfg.dwarf, "xform": cfg.xform, "stable": cfg.stable, "synth": cfg.synth, "strict": strict});
         let r = std::panic::catch_unwind(std::panic::AssertUnwindSafe(|| config.parse(&inp.bytes)));
         let run = match r {
             Ok(Ok(mut m)) => match run::emit(&mut m, false) {
                 Ok(e) => {
                     let om = absmod::project(&e.bytes).unwrap_or_default();
-                    json!({"flags": flags, "outcome": "ok", "calls": calls.load(Ordering::SeqCst), "sections": section_rows(&e.bytes), "producers": producers_json(&om)})
+                    // decoded names: function names and local names (the two kinds the synthetic-names switch governs)
+                    let names: Vec<Value> = om.names.iter().filter(|n| n.kind == "func" || n.kind == "local").map(|n| json!([n.kind, n.idx, n.sub, n.name])).collect();
+                    let nlocals: Vec<u32> = om.funcs.iter().filter(|f| !f.imported).map(|f| f.idx).collect();
+                    json!({"flags": flags, "outcome": "ok", "calls": calls.load(Ordering::SeqCst), "sections": section_rows(&e.bytes), "producers": producers_json(&om),
+                           "names": names, "localfuncs": nlocals})
                 }
-                Err(e) => json!({"flags": flags, "outcome": format!("emit-{}", e), "calls": calls.load(Ordering::SeqCst), "sections": [], "producers": []}),
+                Err(e) => json!({"flags": flags, "outcome": format!("emit-{}", e), "calls": calls.load(Ordering::SeqCst), "sections": [], "producers": [], "names": [], "localfuncs": []}),
             },
-            Ok(Err(_)) => json!({"flags": flags, "outcome": "parse-err", "calls": calls.load(Ordering::SeqCst), "sections": [], "producers": []}),
-            Err(p) => json!({"flags": flags, "outcome": format!("parse-panic:{}", run::short(&run::panic_msg(p))), "calls": calls.load(Ordering::SeqCst), "sections": [], "producers": []}),
+            Ok(Err(_)) => json!({"flags": flags, "outcome": "parse-err", "calls": calls.load(Ordering::SeqCst), "sections": [], "producers": [], "names": [], "localfuncs": []}),
+            Err(p) => json!({"flags": flags, "outcome": format!("parse-panic:{}", run::short(&run::panic_msg(p))), "calls": calls.load(Ordering::SeqCst), "sections": [], "producers": [], "names": [], "localfuncs": []}),
         };
         runs.push(run);
     }
@@ -968,6 +984,53 @@ pub fn features_case(inp: &Input, gc_runs: u32) -> Value {
            "in_data_flags": inm.data.iter().map(|e| e.flag).collect::<Vec<_>>(), "out_data_flags": outm.data.iter().map(|e| e.flag).collect::<Vec<_>>()})
 }
 
+/// Segment offsets in every supported form: {32-bit, 64-bit} memory / table x {constant, global.get of an imported
+/// immutable global of the matching type} x {local, imported} target, for data and element segments.
+pub fn offset_inputs() -> Vec<Input> {
+    use crate::gen::*;
+    use crate::optable::T;
+    let mut out = vec![];
+    for wide in [false, true] {
+        for glob in [false, true] {
+            for imported in [false, true] {
+                for elem in [false, true] {
+                    let mut d = Desc::default();
+                    d.types.push(Sig { params: vec![], results: vec![] });
+                    let oty = if wide { T::I64 } else { T::I32 };
+                    // an unrelated import first, so that no index is 0 by accident
+                    d.globals.push(GlobalD { ty: T::F32, mutable: false, imported: true, init: None });
+                    d.imports.push(Imp { module: "env".into(), field: "pad".into(), kind: ImpKind::Global(0) });
+                    d.globals.push(GlobalD { ty: oty, mutable: false, imported: true, init: None });
+                    d.imports.push(Imp { module: "env".into(), field: "__base".into(), kind: ImpKind::Global(1) });
+                    d.funcs.push(FuncD { ty: 0, imported: false });
+                    d.bodies.push(BodyD { locals: vec![], instrs: vec![wasm_encoder::Instruction::End] });
+                    d.exports.push(ExportD { name: "f".into(), kind: wasm_encoder::ExportKind::Func, idx: 0 });
+                    let offset = if glob { Expr::Global(1) } else if wide { Expr::I64(3) } else { Expr::I32(3) };
+                    if elem {
+                        d.tables.push(TableD { ety: T::FuncRef, min: 8, max: None, t64: wide, imported });
+                        if imported {
+                            d.imports.push(Imp { module: "env".into(), field: "tab".into(), kind: ImpKind::Table(0) });
+                        }
+                        d.exports.push(ExportD { name: "t".into(), kind: wasm_encoder::ExportKind::Table, idx: 0 });
+                        d.elems.push(ElemD { mode: ElemMode::Active { table: 0, offset, explicit_table: false }, ety: T::FuncRef, funcs_form: true, items: vec![Expr::Func(0)] });
+                    } else {
+                        d.mems.push(MemD { min: 1, max: None, m64: wide, shared: false, imported });
+                        if imported {
+                            d.imports.push(Imp { module: "env".into(), field: "mem".into(), kind: ImpKind::Mem(0) });
+                        }
+                        d.exports.push(ExportD { name: "m".into(), kind: wasm_encoder::ExportKind::Memory, idx: 0 });
+                        d.data.push(DataD { mode: DataMode::Active { mem: 0, offset }, bytes: b"hello".to_vec() });
+                    }
+                    let tag = format!("{}{}{}{}", if wide { "w" } else { "n" }, if glob { "g" } else { "c" }, if imported { "i" } else { "l" }, if elem { "e" } else { "d" });
+                    out.push(Input { id: format!("offsets-{}", tag), bytes: d.encode(), source: format!("offsets:{}", tag) });
+                }
+            }
+        }
+    }
+    out.retain(|i| absmod::validate(&i.bytes).is_ok());
+    out
+}
+
 /// one module per post-MVP proposal that needs exactly (or at least) that proposal, plus MVP modules
 pub fn proposal_inputs(seed: u64, per: u64) -> Vec<Input> {
     let mut out = vec![];
@@ -1082,7 +1145,7 @@ pub fn edit_init(inp: &Input) -> Option<Value> {
     let cfg = Cfg { probe: false, ..Default::default() };
     let p = run::parse(&inp.bytes, &cfg).ok()?;
     let mut high = crate::edits::High::default();
-    Some(json!({"id": inp.id, "source": inp.source, "state": crate::edits::slim_state(&p.module, &mut high)}))
+    Some(json!({"id": inp.id, "source": inp.source, "state": crate::edits::slim_state(&p.module, &mut high), "rf": crate::edits::ref_func_targets(&p.module)}))
 }
 
 /// replay one TLC-generated edit script on the real module; snapshot after every call; then emit (and gc;emit)
@@ -1588,7 +1651,11 @@ pub fn exec_case(inp: &Input, gc_runs: u32) -> Option<Value> {
     let in_gtag = |i: u32| i as i64;
     let out_gtag = move |j: u32| gsigma.iter().position(|x| *x == j as i32).map(|i| i as i64).unwrap_or(900 + j as i64);
     let inp_prog = crate::execproj::project(&inp.bytes, &in_tags, &in_gtag)?;
-    let out_prog = crate::execproj::project(&rt.out, &out_tags, &out_gtag)?;
+    // walrus preserves operators, types and segment forms, so the output of an in-subset module is in the subset too;
+    // if it is not, something was changed into another operator or type -- reported, not skipped
+    let Some(out_prog) = crate::execproj::project(&rt.out, &out_tags, &out_gtag) else {
+        return Some(json!({"id": format!("{}~gc{}", inp.id, gc_runs), "source": inp.source, "skip": false, "outcome": "output-leaves-the-executable-subset-of-its-input"}));
+    };
     // calls: exported local functions, small arguments, state carries over between calls
     let mut r = gen::rng(u64::from_str_radix(&absmod::fnv(inp.id.as_bytes()), 16).unwrap_or(1));
     let funcs = inp_prog["funcs"].as_array().unwrap();
